@@ -14,7 +14,9 @@ import (
 	"encoding/hex"
 	"encoding/json"
 	"fmt"
+	"regexp"
 	"sort"
+	"strings"
 	"testing"
 
 	"cosmossdk.io/core/address"
@@ -33,6 +35,7 @@ import (
 	authcodec "github.com/cosmos/cosmos-sdk/x/auth/codec"
 	authtypes "github.com/cosmos/cosmos-sdk/x/auth/types"
 	govtypes "github.com/cosmos/cosmos-sdk/x/gov/types"
+	paramskeeper "github.com/cosmos/cosmos-sdk/x/params/keeper"
 	evmkeeper "github.com/palomachain/paloma/v2/x/evm/keeper"
 	evmtypes "github.com/palomachain/paloma/v2/x/evm/types"
 	palomamodule "github.com/palomachain/paloma/v2/x/paloma"
@@ -44,6 +47,7 @@ import (
 	valsettypes "github.com/palomachain/paloma/v2/x/valset/types"
 	bankkeeper "github.com/cosmos/cosmos-sdk/x/bank/keeper"
 	xchain "github.com/palomachain/paloma/v2/internal/x-chain"
+	palomakeeper "github.com/palomachain/paloma/v2/x/paloma/keeper"
 	palomatypes "github.com/palomachain/paloma/v2/x/paloma/types"
 	schedkeeper "github.com/palomachain/paloma/v2/x/scheduler/keeper"
 	schedtypes "github.com/palomachain/paloma/v2/x/scheduler/types"
@@ -107,6 +111,10 @@ type env struct {
 	two      bool // second environment (tokenfactory, paloma)
 	tf       tftypes.MsgServer
 	tfK      tfkeeper.Keeper
+	tfStore  *storetypes.KVStoreKey
+	skyStore *storetypes.KVStoreKey
+	palomaK  *palomakeeper.Keeper
+	cdc2     codec.Codec
 	paloma   palomatypes.MsgServer
 	bank     bankkeeper.BaseKeeper
 	sched    schedtypes.MsgServer
@@ -141,7 +149,33 @@ func setup(t *testing.T) *env {
 	}
 	e.keys = ks.StoreKeysByName()
 	gov := authtypes.NewModuleAddress(govtypes.ModuleName)
-	e.skywayK = in.SkywayKeeper.VerifC03WithAuthority(gov.String())
+	// the REAL tokenfactory keeper on a spare store of this multistore (x/capability's, which
+	// nothing writes to here); the skyway keeper is rebuilt over the same stores and keepers with
+	// that tokenfactory keeper and the governance authority (test_common.go passes nil / "")
+	tfSpare, ok := e.keys["capability"].(*storetypes.KVStoreKey)
+	if !ok {
+		t.Fatalf("no spare store for tokenfactory")
+	}
+	pKey, ok1 := e.keys["params"].(*storetypes.KVStoreKey)
+	tKey, ok2 := e.keys["transient_params"].(*storetypes.TransientStoreKey)
+	if !ok1 || !ok2 {
+		t.Fatalf("params stores not found: %v", e.keys)
+	}
+	pk := paramskeeper.NewKeeper(in.Marshaler, in.LegacyAmino, pKey, tKey)
+	pk.Subspace(tftypes.ModuleName)
+	tfSub, _ := pk.GetSubspace(tftypes.ModuleName)
+	e.tfK = tfkeeper.NewKeeper(tfSpare, tfSub, in.AccountKeeper, in.BankKeeper, in.DistKeeper, gov.String())
+	e.tfK.SetParams(e.ctx, tftypes.Params{})
+	e.tf = tfkeeper.NewMsgServerImpl(e.tfK)
+	e.tfStore = tfSpare
+	skyKey, ok := e.keys[skywaytypes.StoreKey].(*storetypes.KVStoreKey)
+	if !ok {
+		t.Fatalf("skyway store key not found")
+	}
+	e.skyStore = skyKey
+	e.skywayK = keeper.NewKeeper(in.Marshaler, in.AccountKeeper, in.StakingKeeper, in.BankKeeper, in.SlashingKeeper, in.DistKeeper,
+		in.IbcTransferKeeper, in.EvmKeeper, nil, nil, e.tfK, keeper.NewSkywayStoreGetter(skyKey), gov.String(),
+		authcodec.NewBech32Codec("palomavaloper"))
 	e.skyway = keeper.NewMsgServerImpl(e.skywayK)
 	e.treasury = treasurykeeper.NewMsgServerImpl(*in.TreasuryKeeper)
 	e.valset = valsetkeeper.NewMsgServerImpl(in.ValsetKeeper)
@@ -217,6 +251,8 @@ func (e *env) storeBatch(t *testing.T) {
 
 // ---- attributed state ----
 
+var denomNameRe = regexp.MustCompile(`factory/paloma1[0-9a-z]{38}/`)
+
 // scan digests, per actor, every KV pair of every store whose key or value mentions the actor
 // (raw 20 bytes, account bech32 or validator-operator bech32), and the governance-held settings
 // (read through the keepers' getters) for the authority.
@@ -243,6 +279,11 @@ func (e *env) scan(ctx sdk.Context) map[int]string {
 		it := ctx.KVStore(k).Iterator(nil, nil)
 		for ; it.Valid(); it.Next() {
 			key, v := it.Key(), it.Value()
+			if n == "bank" {
+				// coins of a tokenfactory denom are their holder's, not the denom creator's whose
+				// address is part of the denom's name
+				key, v = denomNameRe.ReplaceAll(key, []byte("factory/_/")), denomNameRe.ReplaceAll(v, []byte("factory/_/"))
+			}
 			for i := range nd {
 				if bytes.Contains(key, nd[i].raw) || bytes.Contains(key, nd[i].acc) || bytes.Contains(key, nd[i].val) ||
 					bytes.Contains(v, nd[i].raw) || bytes.Contains(v, nd[i].acc) || bytes.Contains(v, nd[i].val) {
@@ -288,8 +329,17 @@ func (e *env) govDigest(ctx sdk.Context) string {
 	add("evm.chains", cis, err)
 	lc, err := e.in.EvmKeeper.GetLastCompassContract(ctx)
 	add("evm.compass", lc, err)
+	// bindings of native denoms are governance's; a tokenfactory denom's binding is its admin's
+	// (attributed through the KV scan: the denom carries its creator's address, and see nameOnly)
 	m, err := e.in.SkywayKeeper.GetAllERC20ToDenoms(ctx)
-	add("skyway.erc20", m, err)
+	var nat []string
+	for _, x := range m {
+		if !strings.HasPrefix(x.Denom, "factory/") {
+			nat = append(nat, x.ChainReferenceId+"|"+strings.ToLower(x.Erc20)+"|"+x.Denom)
+		}
+	}
+	sort.Strings(nat)
+	add("skyway.erc20", nat, err)
 	h := sha256.Sum256([]byte(fmt.Sprint(parts)))
 	return hex.EncodeToString(h[:8])
 }
